@@ -17,6 +17,7 @@ func init() {
 		ruleU3(c, "C07.U3")
 		ruleW1(c, "C07.U4")
 		ruleM6(c, "C07.U5")
+		ruleR2(c, "C07.U6")
 	}
 }
 
